@@ -162,7 +162,9 @@ def run(ctx):
             msg = f"[{mname}] the split condition is not 'cost {sign_set_name(want_signs)} t' on the popped range's endpoint-line cost"
             res.violation("T1", m.fi.module, m.fi.name, m.loop, msg, _short(got, 300), _short(want, 300), construct=f"accept/reject {mname}")
         if mname == "smape":
-            check_split_index(rc, "T3", m, "rdp.rdp", allow_middle=False)
+            # ("no interior point is farther beyond rounding noise": a middle index chosen when *every* distance is below machine
+            # epsilon - the guard of the fixed / global variants, shared through a helper - is within the statement)
+            check_split_index(rc, "T3", m, "rdp.rdp", allow_middle=True)
             check_children(rc, "T4", m, "rdp.rdp")
     rm.check_distance_dispatch(rc, "T3", "rdp.rdp")
     # the helpers the rules above treat as opaque: the two distance primitives the split maximises and the endpoint fit the cost is measured against
